@@ -340,6 +340,9 @@ def oracle_marginals(case):
     c = build.coalescent(spec)
     pops = list(c.lineage_config.pop_names)
     dists = [('tree_height', c.tree_height), ('total_branch_length', c.total_branch_length)]
+    if spec.get('loci') == 2 and case.get('loci_first'):
+        # per-locus marginals are read BEFORE the per-population ones on the same object (the order of reading must not matter)
+        n += locus_block(c, fails)
     for name, d in dists:
         tot = d.mean
         parts = [d.demes[p].mean for p in pops]
@@ -378,13 +381,21 @@ def oracle_marginals(case):
         n += 1
         if any(x != 0.0 for x in v):
             fails.append({'what': 'a population that can never hold a lineage contributes a non-zero amount', 'pop': p, 'values': v})
-    if spec.get('loci') == 2:
-        tot = c.total_branch_length.mean
-        parts = [c.total_branch_length.loci[l].mean for l in (0, 1)]
-        n += 1
-        if not rel(sum(parts), tot, 1e-9):
-            fails.append({'what': 'per-locus branch lengths do not sum to the total', 'parts': parts, 'total': tot})
+    if spec.get('loci') == 2 and not case.get('loci_first'):
+        n += locus_block(c, fails)
     return fails, n, {}
+
+
+def locus_block(c, fails):
+    tot = c.total_branch_length.mean
+    parts = [c.total_branch_length.loci[l].mean for l in (0, 1)]
+    if not rel(sum(parts), tot, 1e-9):
+        fails.append({'what': 'per-locus branch lengths do not sum to the total', 'parts': parts, 'total': tot})
+    # the joint tree height is at least the height at each locus
+    hs = [c.tree_height.loci[l].mean for l in (0, 1)]
+    if c.tree_height.mean < max(hs) * (1 - 1e-9):
+        fails.append({'what': 'tree height (max over loci) is below the height of one locus', 'loci': hs, 'joint': c.tree_height.mean})
+    return 2
 
 
 # ------------------------------------------------------------------------------------------ C13
@@ -515,6 +526,14 @@ def oracle_routes(case):
     checks.append(('sum of rewards acts linearly after the product was asked', sv, means[0] + means[1], 1e-10))
     checks.append(('product after sum of the same components (memoisation)', pv,
                    build.coalescent(spec).moment(1, (R.ProductReward([mk_reward(case['rewards'][0]), mk_reward(case['rewards'][1])]),), center=False), 1e-12))
+    # composites that differ only in the MULTIPLICITY of an operand, asked on the same object after the plain ones
+    s122 = raw([R.SumReward([rs[0], rs[1], rs[1]])])
+    checks.append(('sum with a repeated operand acts linearly (asked after the plain sum)', s122, means[0] + 2 * means[1], 1e-10))
+    p1 = raw([R.ProductReward([rs[1]])])
+    p11 = raw([R.ProductReward([rs[1], rs[1]])])
+    checks.append(('product with a single operand is the operand', p1, means[1], 1e-12))
+    checks.append(('product with a repeated operand (asked after the single one) vs a fresh object', p11,
+                   build.coalescent(spec).moment(1, (R.ProductReward([mk_reward(case['rewards'][1]), mk_reward(case['rewards'][1])]),), center=False), 1e-12))
     # memoisation keyed by reward equality: equal rewards built twice give the same number
     rs2 = [mk_reward(r) for r in case['rewards']]
     checks.append(('rewards that compare equal give the same value', c.moment(k, tuple(rs2), center=True), cen, 0))
